@@ -1123,10 +1123,13 @@ def istypedtuple(obj: type) -> compat.TypeIs[type[tp.NamedTuple]]:
     """
     # (A parameterised generic `NamedTuple` is an alias of the class.)
     obj = tp.get_origin(obj) or obj
+    # (Annotated somewhere along its bases: a subclass which adds no field has no annotations
+    #   of its own; and a named tuple, not any `tuple` subclass with an annotated class variable.)
     return (
         inspect.isclass(obj)
         and issubclass(obj, tuple)
-        and bool(getattr(obj, "__annotations__", False))
+        and hasattr(obj, "_fields")
+        and any(vars(base).get("__annotations__") for base in obj.__mro__)
     )
 
 
